@@ -237,6 +237,7 @@ int32_t tls13NewTicket(ssl_t *ssl,
     rc = psAesReadyGCMRandomIV(&ctx, iv, NULL, 0, NULL);
     if (rc < 0)
     {
+        psDynBufUninit(&buf);
         tls13FreePsk(psk, ssl->hsPool);
         psAesClearGCM(&ctx);
         return rc;
@@ -250,6 +251,7 @@ int32_t tls13NewTicket(ssl_t *ssl,
             &stateLen);
     if (rc < 0)
     {
+        psDynBufUninit(&buf);
         tls13FreePsk(psk, ssl->hsPool);
         psAesClearGCM(&ctx);
         return rc;
@@ -274,6 +276,14 @@ int32_t tls13NewTicket(ssl_t *ssl,
 # endif
 
     tag = psMalloc(ssl->hsPool, TLS_GCM_TAG_LEN);
+    if (tag == NULL)
+    {
+        psDynBufUninit(&buf);
+        tls13FreePsk(psk, ssl->hsPool);
+        psFree(state, ssl->hsPool);
+        psAesClearGCM(&ctx);
+        return PS_MEM_FAIL;
+    }
     psAesGetGCMTag(&ctx,
             TLS_GCM_TAG_LEN,
             tag);
